@@ -388,6 +388,18 @@ def classify(p, ref, boa, probe=None):
         if lex & _assigned_ids({k: p[k] for k in ("p_funcs", "p_body")}):
             return "tdz-assign-before-init"
         return "tdz-missing"
+    # a labelled break / continue leaving an inner for-of / for-in also leaves an enclosing iterator loop: boa prints less
+    if any(b[1] is not None for b in nodes(p, "SBreak") + nodes(p, "SContinue")) and len(nodes(p, "SForOf") + nodes(p, "SForIn")) >= 2 \
+            and len(ba) < len(ra) and subseq(ba, ra) and rc == bc:
+        return "label-jump-through-nested-iterator-loops"
+    # an exception crossing a for-in nested in a for-of does not close the outer iterator: the iterator's cleanup output is missing
+    if nodes(p, "SForIn") and nodes(p, "SForOf") and len(ba) < len(ra) and subseq(ba, ra) and rc == bc:
+        return "iterator-not-closed-on-throw-through-for-in"
+    # integer division fast path loses the sign of zero: tokens differ only by a leading minus (-Infinity / Infinity, -0 / 0)
+    if any(b[1] == "BDiv" for b in nodes(p, "EBinary") + nodes(p, "EOpAssign")) and same_shape:
+        pairs = [(x, y) for x, y in zip(d1[2].split(" "), d1[3].split(" ")) if x != y]
+        if pairs and all(x == "-" + y for x, y in pairs):
+            return "int-div-negative-zero"
     # NaN exponent: the oracle's differing tokens are all NaN
     if any(b[1] == "BExp" for b in nodes(p, "EBinary") + nodes(p, "EOpAssign")) and same_shape:
         pairs = [(x, y) for x, y in zip(d1[2].split(" "), d1[3].split(" ")) if x != y]
@@ -620,7 +632,7 @@ class Abandoned(Exception):
     pass
 
 
-def process_chunk(run, eng, progs, deadline, tag, shrink_limit):
+def process_chunk(quick, eng, progs, deadline, tag, shrink_limit):
     """Differential of one chunk of programs, completely: every mismatch is filtered through V8, shrunk and classified.
     Returns (stats, findings, counted_cases, model_defects) or raises Abandoned when the wall-clock budget ran out in the
     middle (nothing of an abandoned chunk is counted, so no unclassified mismatch is ever left behind)."""
@@ -699,7 +711,7 @@ def process_chunk(run, eng, progs, deadline, tag, shrink_limit):
                 if deadline - time.time() < 0.7 * shrink_limit:
                     raise Abandoned()       # not enough budget left to minimise (and hence classify) this case properly
                 try:
-                    q = shrink.shrink(p, make_pred(eng, d0, deadline), max_rounds=30 if run.quick else 60,
+                    q = shrink.shrink(p, make_pred(eng, d0, deadline), max_rounds=30 if quick else 60,
                                       time_limit=min(shrink_limit, max(1.0, deadline - time.time())))
                     shrunk = True
                 except Abandoned:
@@ -722,6 +734,33 @@ def process_chunk(run, eng, progs, deadline, tag, shrink_limit):
             findings.append({"class": cls, "size": shrink.size(q),
                              "replay": replay_obj(q, r2, b2, n2, cls, "counterexample", extra={"shrunk": shrunk, "origin": tag + ":" + str(k)})})
     return st, findings, counted, defects
+
+
+def gen_chunk(seed, ci, chunk, quick, max_depth):
+    rng = random.Random((seed << 20) ^ (ci * 7919 + 13))
+    progs = {}
+    for j in range(chunk):
+        size = rng.choice([8, 12, 20, 30, 45] if quick else [8, 12, 20, 30, 45, 70, 110])
+        try:
+            progs["%d.%d" % (ci, j)] = progen.gen_program(rng, "C01", size, max_depth=max_depth)
+        except Exception as ex:      # a generator bug must not look like a property violation
+            log("generator exception (chunk %d item %d): %r" % (ci, j, ex))
+    return progs
+
+
+def chunk_worker(args):
+    """one chunk in a worker PROCESS (the shrinker is CPU-bound Python: threads would serialise on the GIL)"""
+    seed, ci, chunk, quick, max_depth, deadline, binpath = args
+    if time.time() > deadline - (30 if quick else 120):
+        return ("late", ci)         # a chunk started now could not be completed (and classified) within the budget
+    HARD_DEADLINE[0] = deadline
+    progs = gen_chunk(seed, ci, chunk, quick, max_depth)
+    t0 = time.time()
+    try:
+        st, findings, counted, defects = process_chunk(quick, Engine(binpath), progs, deadline, "g%d" % ci, 30 if quick else 150)
+        return ("ok", ci, len(progs), st.c, findings, counted, defects, round(time.time() - t0, 1))
+    except Abandoned:
+        return ("abandoned", ci)
 
 
 def main():
@@ -751,7 +790,7 @@ def main():
         vlib.infra_error(PROP, "harness build failed: " + hlog[-400:])
     eng = Engine(paths["js"])
     run.cov["v8_filter_available"] = node_available()
-    budget = (90 if run.quick else 900)
+    budget = (120 if run.quick else 900)
     if os.environ.get("C01_BUDGET"):
         budget = int(os.environ["C01_BUDGET"])
     target = int(os.environ.get("C01_PROGRAMS", 3000 if run.quick else 60000))
@@ -775,43 +814,30 @@ def main():
     for p in cprogs.values():
         p.setdefault("meta", {"form": "script", "features": [], "hermetic": False, "main_call": None})
     if cprogs:
-        merge(process_chunk(run, eng, cprogs, time.time() + 3000, "corpus", 0))
+        merge(process_chunk(run.quick, eng, cprogs, time.time() + 3000, "corpus", 0))
         st.add("corpus_programs", len(cprogs))
     t_start = time.time()
     deadline = t_start + budget
-    HARD_DEADLINE[0] = deadline
     # 4b generated programs: chunks in parallel, each processed completely or not at all
-    chunk = 40 if run.quick else 100
+    chunk = 30 if run.quick else 100
     n_done = 0
 
-    def gen_chunk(ci):
-        rng = random.Random((run.seed << 20) ^ (ci * 7919 + 13))
-        progs = {}
-        for j in range(chunk):
-            size = rng.choice([8, 12, 20, 30, 45] if run.quick else [8, 12, 20, 30, 45, 70, 110])
-            try:
-                progs["%d.%d" % (ci, j)] = progen.gen_program(rng, "C01", size, max_depth=max_depth)
-            except Exception as ex:      # a generator bug must not look like a property violation
-                log("generator exception (chunk %d item %d): %r" % (ci, j, ex))
-        return progs
-
-    def do_chunk(ci):
-        if time.time() > deadline:
-            return None
-        progs = gen_chunk(ci)
-        try:
-            return len(progs), process_chunk(run, eng, progs, deadline, "g%d" % ci, 30 if run.quick else 150)
-        except Abandoned:
-            abandoned[0] += 1
-            return None
-        finally:
-            pass
     nchunks = (target + chunk - 1) // chunk
-    with ThreadPoolExecutor(max_workers=WORKERS) as ex:
-        for r in ex.map(do_chunk, range(nchunks)):
-            if r is not None:
-                n_done += r[0]
-                merge(r[1])
+    from concurrent.futures import ProcessPoolExecutor
+    jobs = [(run.seed, ci, chunk, run.quick, max_depth, deadline, paths["js"]) for ci in range(nchunks)]
+    close_servers()                 # fork the workers without live runner pipes
+    with ProcessPoolExecutor(max_workers=WORKERS) as ex:
+        for r in ex.map(chunk_worker, jobs, chunksize=1):
+            if r[0] == "ok":
+                _, ci, n, stc, cf, counted, defects, secs = r
+                n_done += n
+                cst = Stats()
+                cst.c = stc
+                merge((cst, cf, counted, defects))
+            elif r[0] == "abandoned":
+                abandoned[0] += 1
+            if r[0] != "late":
+                log("chunk %d: %s %s" % (r[1], r[0], ("%d programs, %d escalated, %.1fs" % (r[2], r[3].get("escalated", 0), r[7])) if r[0] == "ok" else ""))
     HARD_DEADLINE[0] = None
     run.cov["chunks_abandoned_at_deadline"] = abandoned[0]
     run.cov["programs_generated"] = n_done
